@@ -261,7 +261,7 @@ pub fn session<E: SimEnv>(cfg: &SessionCfg, cs: &mut EnvCensus, out: &mut Sessio
                     if tick > 1 {
                         let base = gen.price(&mut rng, asset);
                         let d = rng.range(1, tick as u64 - 1) as u32;
-                        let p = base.checked_add(d).unwrap_or(base - d); // coarse grids: stay inside the price type
+                        let p = base.checked_add(d).unwrap_or_else(|| base - d); // coarse grids: stay inside the price type
                         offgrid.push((pos, Ins::New { asset, bid: rng.chance(0.5), vol: rng.range(1, 50) as u32, trader: 5, price: Some(p) }));
                     }
                 }
